@@ -552,12 +552,44 @@ def r3(L, repo):
     L.structural("C09.R3 def-use classification of the deadline variable in the worker loop", r3_deadline, L, repo)
 
 
+def r7_worker_setup(L, repo):
+    """R7 (while running, the handler is called once per tick): the clock thread survives its own set-up - every
+    operating-system call `_worker()` makes before / around the timing loop that may fail with OSError
+    (os.sched_setscheduler: EPERM without privileges, EINVAL for a priority outside the policy's range, ...) sits in a
+    `try` whose handlers catch OSError as a whole (OSError, EnvironmentError, Exception or a bare except): a handler for
+    one errno class only (PermissionError) lets the others end the thread before the first tick."""
+    ci, wk = repo.need_method("clck_gen", "CLCKGen", "_worker")
+    fn = "CLCKGen._worker"
+    L.fn(F, fn)
+    OSCALLS = ("os.sched_setscheduler", "os.sched_setparam", "os.nice", "os.setpriority", "os.sched_setaffinity")
+    WIDE = {"OSError", "EnvironmentError", "IOError", "Exception", "BaseException"}
+    n = 0
+    for c in calls_in(wk):
+        if canon(c.func) not in OSCALLS:
+            continue
+        n += 1
+        caught, shown = False, []
+        cur, child = getattr(c, "_parent", None), c
+        while cur is not None and cur is not wk:
+            if isinstance(cur, ast.Try) and any(child is x for x in cur.body):
+                for h in cur.handlers:
+                    names = ["<bare>"] if h.type is None else [canon(x) for x in (h.type.elts if isinstance(h.type, ast.Tuple) else [h.type])]
+                    shown += names
+                    if h.type is None or any(x.split(".")[-1] in WIDE for x in names):
+                        caught = True
+            child, cur = cur, getattr(cur, "_parent", None)
+        L.ob("C09.R7", F, fn, "`%s(..)` in the clock thread cannot end the thread: every OSError is caught" % canon(c.func),
+             "inside try ... except OSError (or wider)", shown or "not inside a try", caught, c.lineno)
+    L.extra["c09_r7_os_calls"] = n
+
+
 def run(L, tier):
     repo = Repo(L.repo)
     L.stage(r1_counter, L, repo)
     L.stage(r2_indication, L, repo)
     L.stage(r3, L, repo)
     L.stage(r4_restart, L, repo)
+    L.stage(r7_worker_setup, L, repo)
     from pyutil import instance_state
     L.stage(_r6_instance, L, repo)
 
